@@ -16,6 +16,7 @@ import (
 	"net"
 	"os"
 	"sort"
+	"strings"
 	"sync"
 	"sync/atomic"
 	"time"
@@ -32,7 +33,33 @@ type vspec struct{ name, val int }
 
 const vVariants = 6
 
-func vport(s vspec) int { return 21900 + s.name*8 + s.val }
+// bind ports are chosen by the OS, once per (worker address, name, value)
+var (
+	vportMu  sync.Mutex
+	vportTab = map[string]int{}
+)
+
+func vport(ip string, s vspec) int {
+	vportMu.Lock()
+	defer vportMu.Unlock()
+	k := fmt.Sprintf("%s/%d/%d", ip, s.name, s.val)
+	if p, ok := vportTab[k]; ok {
+		return p
+	}
+	for {
+		p := hx.FreePort(ip)
+		dup := false
+		for k2, q := range vportTab {
+			if q == p && strings.HasPrefix(k2, ip+"/") {
+				dup = true
+			}
+		}
+		if !dup {
+			vportTab[k] = p
+			return p
+		}
+	}
+}
 
 func buildVisitor(s vspec, ip string) v1.VisitorConfigurer {
 	c := &v1.STCPVisitorConfig{}
@@ -41,7 +68,7 @@ func buildVisitor(s vspec, ip string) v1.VisitorConfigurer {
 	c.SecretKey = "k"
 	c.ServerName = "srv"
 	c.BindAddr = ip
-	c.BindPort = vport(s)
+	c.BindPort = vport(ip, s)
 	switch s.val {
 	case 1:
 		c.SecretKey = "kx"
@@ -147,7 +174,7 @@ func (r *vrun) step(s vstep) vobs {
 			continue
 		}
 		// only a free port can be occupied (a running visitor keeps its own)
-		if ln, err := net.Listen("tcp", net.JoinHostPort(r.ip, fmt.Sprint(vport(b)))); err == nil {
+		if ln, err := net.Listen("tcp", net.JoinHostPort(r.ip, fmt.Sprint(vport(r.ip, b)))); err == nil {
 			r.blockers[b] = ln
 		}
 	}
@@ -204,7 +231,7 @@ func (r *vrun) step(s vstep) vobs {
 		if _, b := r.blockers[sp]; b {
 			continue
 		}
-		ln, err := net.Listen("tcp", net.JoinHostPort(r.ip, fmt.Sprint(vport(sp))))
+		ln, err := net.Listen("tcp", net.JoinHostPort(r.ip, fmt.Sprint(vport(r.ip, sp))))
 		if err != nil {
 			o.stale++
 		} else {
@@ -366,7 +393,12 @@ func genVisitorCase(g *hx.Gen) []vstep {
 					break
 				}
 			}
-			sort.Slice(s.unblock, func(i, j int) bool { return vport(s.unblock[i]) < vport(s.unblock[j]) })
+			sort.Slice(s.unblock, func(i, j int) bool {
+				if s.unblock[i].name != s.unblock[j].name {
+					return s.unblock[i].name < s.unblock[j].name
+				}
+				return s.unblock[i].val < s.unblock[j].val
+			})
 		}
 		if len(steps) == 0 || g.Chance(0.6) {
 			s.update = true
